@@ -536,17 +536,17 @@ pages = any page of a 1..40-page document with a nested page tree; zero-page par
 separate stream) run through the real add_bookmark/adjust_zero_pages/build_outline/get_toc/save_to/load_mem; mutated outlines (no cycles) \
 for the readers. Non-trivial = forest with >= 2 reachable bookmarks (distinct by request text) or a mutated outline.".into();
 
-    let n = c.n(300, 4000);
+    let n = c.n(300, 12000);
     for i in 0..n {
         let Some(mut r) = c.case("valid", i) else { continue };
         scenario(c, &mut r, PageMode::Valid, if i % 7 == 0 { 40 } else { 16 }, true, "valid");
     }
-    let n = c.n(150, 2000);
+    let n = c.n(150, 6000);
     for i in 0..n {
         let Some(mut r) = c.case("zero", i) else { continue };
         scenario(c, &mut r, PageMode::ZeroParents, 20, false, "zero");
     }
-    let n = c.n(100, 1500);
+    let n = c.n(100, 4000);
     for i in 0..n {
         let Some(mut r) = c.case("foreign", i) else { continue };
         scenario(c, &mut r, PageMode::Foreign, 16, true, "foreign");
@@ -556,7 +556,7 @@ for the readers. Non-trivial = forest with >= 2 reachable bookmarks (distinct by
         let Some(mut r) = c.case("shape", i as u64) else { continue };
         shape_case(c, &mut r, *depth, *fan);
     }
-    let n = c.n(300, 4000);
+    let n = c.n(300, 12000);
     for i in 0..n {
         let Some(mut r) = c.case("reader", i) else { continue };
         reader_case(c, &mut r);
